@@ -219,7 +219,7 @@ class Parser:
                     # Unquoted strings after SYMBOL can only be values, not attributes
                     if (
                         ip.parser_state.value_stack
-                        and ip.parser_state.value_stack[-1] == "SYMBOL"
+                        and ip.parser_state.value_stack[-1].upper() == "SYMBOL"
                         and t.value.upper() not in SYMBOL_ATTRIBUTES
                     ):
                         t.type = "UNQUOTED_STRING_VALUE"
@@ -227,7 +227,7 @@ class Parser:
                     # Unquoted 'GRID' coming after NAME is always a value, not a composite type
                     if (
                         ip.parser_state.value_stack
-                        and ip.parser_state.value_stack[-1] == "NAME"
+                        and ip.parser_state.value_stack[-1].upper() == "NAME"
                     ):
                         t.type = "UNQUOTED_STRING_VALUE"
 
